@@ -435,10 +435,56 @@ def rule_unlabelled(repo, rep):
   rep.floor('supervised fits with a hand-off to the base algorithm', n_sup, 6)
 
 
+def rule_core_kwargs(repo, rep):
+  R = 'R-FLOW:core-receives-hyper-parameters'
+  rep.rule(R, 'a keyword argument that the supervised fit hands to the '
+           'shared core (_fit) under the name of a constructor parameter or '
+           'of a parameter of fit is that value itself (self.<name>, resp. '
+           'the unmodified argument): a value recomputed by '
+           'the wrapper (e.g. default bounds from its own view of the data) '
+           'makes the supervised fit differ from the base learner on the '
+           'same constraints')
+  n = 0
+  for sup, base in PAIRS:
+    cs = repo.get_class(sup)
+    fs = repo.resolve_method(cs, 'fit')
+    init = repo.resolve_method(cs, '__init__')
+    ctor = set(init.params()[1:]) if init is not None else set()
+    calls = [c for c in astutil.calls_in(fs.node)
+             if isinstance(c.func, ast.Attribute) and c.func.attr == '_fit']
+    for c in calls:
+      for k in c.keywords:
+        fparams = set(fs.params())
+        if k.arg is None or (k.arg not in ctor and k.arg not in fparams):
+          continue
+        assigned = any(isinstance(x, ast.Name) and x.id == k.arg and
+                       isinstance(x.ctx, ast.Store)
+                       for x in ast.walk(fs.node))
+        n += 1
+        key = '%s.fit:%s' % (sup, k.arg)
+        body = fs.node.body
+        top = astutil.stmt_of(fs.node, c)
+        pm = astutil.parents(fs.node)
+        while top not in body and top in pm:
+          top = pm[top]
+        v = astutil.unfold(k.value, body, top) if top in body else k.value
+        if k.arg in ctor and ast.unparse(v) == 'self.%s' % k.arg:
+          rep.derived(R, key, site(fs, c))
+        elif k.arg in fparams and not assigned and \
+                ast.unparse(k.value) == k.arg:
+          rep.derived(R, key, site(fs, c))
+        else:
+          rep.refuted(R, key, site(fs, c), 'the core receives %s=%s, not '
+                      'the caller\'s %s' % (k.arg, ast.unparse(v)[:80],
+                                            k.arg))
+  rep.floor('hyper-parameter keywords handed to the core', n, 2)
+
+
 def check(repo, rep, tier):
   rule_core(repo, rep)
   rule_frame(repo, rep)
   rule_unlabelled(repo, rep)
+  rule_core_kwargs(repo, rep)
   from . import c07b
   c07b.rule_wrap_pairs(repo, rep)
   # "with the same hyper-parameters": fitting the supervised variant leaves
